@@ -191,8 +191,22 @@ template <class Mesh> void HistRun<Mesh>::op_bad(R &r, const Op &q) {
         if (KID == 2) hfs = {hfs[0], hfs[1], hfs[2], hfs[4], hfs[3], hfs[5]};
         before = take_snap(*r.mesh);
         if (q.a[2] & 16) { for (int &h : hfs) h ^= 1; st.add("probe_bad_cell_all_sides_flipped"); }   // the mirror image is a closed surface too (still a valid argument)
-        int defect = q.a[1] % 10;
-        if (defect >= 8) {
+        int defect = q.a[1] % 12;
+        if (defect >= 10) {
+            // one face replaced by a "flap": a fresh face of the same valence that shares exactly one edge (same direction) with the face it
+            // replaces - locally adjacent to its neighbours across that edge, yet the surface is open. Size preserved.
+            size_t k = (size_t)(q.a[2] % (int)hfs.size());
+            std::vector<int> cyc = m.hf_vertices(hfs[k]);
+            size_t j = (size_t)((q.a[2] / 8) % (int)cyc.size());
+            std::vector<int> flap = {cyc[j], cyc[(j + 1) % cyc.size()]};
+            while (flap.size() < cyc.size()) flap.push_back(w_add_vertex(r, true));
+            int hf = obtain_halfface(r, flap);
+            if (hf < 0) return;
+            hfs[k] = hf;
+            before = take_snap(*r.mesh);
+            st.add("probe_bad_cell_flap");
+        }
+        if (defect >= 8 && defect < 10) {
             // an arbitrary list of free halffaces of the mesh as it is (faces built from halfedges of either orientation, 2-gons over duplicate
             // edges, loops ...): numbering patterns the fresh template never has. A free face's two sides form a valid closed surface.
             std::vector<int> freehf;
